@@ -1752,8 +1752,7 @@ def import_jackknife(jacks, name, idl=None):
     length = len(jacks) - 1
     prj = (np.ones((length, length)) - (length - 1) * np.identity(length))
     samples = jacks[1:] @ prj
-    mean = np.mean(samples)
-    new_obs = Obs([samples - mean], [name], idl=idl, means=[mean])
+    new_obs = Obs([samples], [name], idl=idl)
     new_obs._value = jacks[0]
     return new_obs
 
